@@ -16,7 +16,7 @@ use serde_json::{Value as J, json};
 use std::collections::HashMap;
 use std::panic::{AssertUnwindSafe, catch_unwind};
 use std::sync::Mutex;
-use std::sync::atomic::{AtomicU64, AtomicUsize, Ordering};
+use std::sync::atomic::{AtomicU64, Ordering};
 
 #[derive(Clone, Debug)]
 enum Alt {
@@ -125,9 +125,35 @@ fn probe(image: Vec<u8>, cfg: &Config) -> J {
     .unwrap_or_else(|_| json!({"open": "panic"}))
 }
 
+/// probes the alterations [from, to) of an image; one line per probe, announced before it starts
+fn worker(args: &Args) {
+    use std::io::Write;
+    quiet_panics();
+    let image = std::fs::read(args.str("image", "")).unwrap();
+    let cfg = Config::from_json(&serde_json::from_str(&std::fs::read_to_string(args.str("cfg", "")).unwrap()).unwrap());
+    let alts: Vec<Alt> = std::fs::read_to_string(args.str("alts", "")).unwrap().lines().map(|l| Alt::from_json(&serde_json::from_str(l).unwrap())).collect();
+    let (from, to) = (args.u64("from", 0) as usize, args.u64("to", 0) as usize);
+    let out = std::io::stdout();
+    for w in from..to.min(alts.len()) {
+        let mut img = image.clone();
+        if !alts[w].apply(&mut img) {
+            writeln!(out.lock(), "{}", json!({"w": w, "skipped": true})).unwrap();
+            continue;
+        }
+        writeln!(out.lock(), "{}", json!({"start": w})).unwrap();
+        out.lock().flush().unwrap();
+        let o = probe(img, &cfg);
+        writeln!(out.lock(), "{}", json!({"w": w, "out": o})).unwrap();
+    }
+    out.lock().flush().unwrap();
+}
+
 fn main() {
     let args = Args::parse();
     quiet_panics();
+    if args.has("worker") {
+        return worker(&args);
+    }
     let seed = args.u64("seed", 1);
     let histories = args.u64("histories", 3);
     let steps = args.u64("steps", 120);
@@ -137,6 +163,7 @@ fn main() {
     let mut tw = TraceWriter::create(&args.str("out", "corrupt.ndjson"));
     let mut scripts = args.map.get("scripts-out").map(|p| TraceWriter::create(p));
     let (mut total, mut distinct, mut certified, mut repaired, mut rejected, mut panics) = (0u64, 0u64, 0u64, 0u64, 0u64, 0u64);
+    let mut total_aborts = 0u64;
     let mut samples = vec![];
     let histories = if replay.is_some() { 1 } else { histories };
     for h in 0..histories {
@@ -237,30 +264,78 @@ fn main() {
                 }
             }
         }
-        let next = AtomicUsize::new(0);
+        // the probes run in worker processes: redb may panic while it is already unwinding from a panic on a damaged
+        // image, which aborts the process; that is a loud outcome like any other and must not end the sweep
         let applied = AtomicU64::new(0);
         let found: Mutex<HashMap<String, (J, J, u64)>> = Mutex::new(HashMap::new());
+        let base = args.str("out", "corrupt.ndjson");
+        let (f_image, f_alts, f_cfg) = (format!("{base}.image"), format!("{base}.alts"), format!("{base}.cfg"));
+        std::fs::write(&f_image, &image).unwrap();
+        std::fs::write(&f_alts, alts.iter().map(|a| a.to_json().to_string()).collect::<Vec<_>>().join("\n")).unwrap();
+        std::fs::write(&f_cfg, cfg.to_json().to_string()).unwrap();
+        let exe = std::env::current_exe().unwrap();
+        let chunk = alts.len().div_ceil(threads.max(1)).max(1);
+        let aborts = AtomicU64::new(0);
         std::thread::scope(|sc| {
-            for _ in 0..threads {
-                sc.spawn(|| {
-                    loop {
-                        let w = next.fetch_add(1, Ordering::Relaxed);
-                        if w >= alts.len() {
+            for t in 0..threads {
+                let (lo, hi) = (t * chunk, ((t + 1) * chunk).min(alts.len()));
+                if lo >= hi {
+                    continue;
+                }
+                let (exe, f_image, f_alts, f_cfg, found, applied, alts, aborts) = (&exe, &f_image, &f_alts, &f_cfg, &found, &applied, &alts, &aborts);
+                sc.spawn(move || {
+                    let mut from = lo;
+                    while from < hi {
+                        let out = std::process::Command::new(exe)
+                            .args(["--worker", "--image", f_image, "--alts", f_alts, "--cfg", f_cfg, "--from", &from.to_string(), "--to", &hi.to_string()])
+                            .stderr(std::process::Stdio::null())
+                            .output()
+                            .expect("HARNESS: cannot start a probe worker");
+                        let mut started: Option<usize> = None;
+                        let mut last_done = from;
+                        for line in String::from_utf8_lossy(&out.stdout).lines() {
+                            let Ok(j) = serde_json::from_str::<J>(line) else { continue };
+                            if let Some(w) = j.get("start").and_then(|x| x.as_u64()) {
+                                started = Some(w as usize);
+                            } else if let Some(w) = j.get("w").and_then(|x| x.as_u64()) {
+                                let w = w as usize;
+                                started = None;
+                                last_done = w + 1;
+                                if j["skipped"] == true {
+                                    continue;
+                                }
+                                applied.fetch_add(1, Ordering::Relaxed);
+                                let key = j["out"].to_string();
+                                let mut f = found.lock().unwrap();
+                                f.entry(key).and_modify(|e| e.2 += 1).or_insert((j["out"].clone(), alts[w].to_json(), 1));
+                            }
+                        }
+                        if out.status.success() {
                             break;
                         }
-                        let mut img = image.clone();
-                        if !alts[w].apply(&mut img) {
-                            continue;
+                        // the worker died inside the probe it had announced
+                        match started {
+                            Some(w) => {
+                                aborts.fetch_add(1, Ordering::Relaxed);
+                                applied.fetch_add(1, Ordering::Relaxed);
+                                let o = json!({"open": "abort"});
+                                let mut f = found.lock().unwrap();
+                                f.entry(o.to_string()).and_modify(|e| e.2 += 1).or_insert((o, alts[w].to_json(), 1));
+                                from = w + 1;
+                            }
+                            None => {
+                                assert!(last_done > from, "HARNESS: a probe worker fails before probing anything");
+                                from = last_done;
+                            }
                         }
-                        applied.fetch_add(1, Ordering::Relaxed);
-                        let out = probe(img, &cfg);
-                        let key = out.to_string();
-                        let mut f = found.lock().unwrap();
-                        f.entry(key).and_modify(|e| e.2 += 1).or_insert((out, alts[w].to_json(), 1));
                     }
                 });
             }
         });
+        for f in [&f_image, &f_alts, &f_cfg] {
+            let _ = std::fs::remove_file(f);
+        }
+        total_aborts += aborts.load(Ordering::Relaxed);
         let found = found.into_inner().unwrap();
         total += applied.load(Ordering::Relaxed);
         distinct += found.len() as u64;
@@ -278,7 +353,7 @@ fn main() {
             match (out["open"].as_str(), out.get("integ").and_then(|x| x.get("ok")).and_then(|x| x.as_bool())) {
                 (Some("ok"), Some(true)) => certified += n,
                 (Some("ok"), Some(false)) => repaired += n,
-                (Some("panic"), _) => panics += n,
+                (Some("panic" | "abort"), _) => panics += n,
                 _ => rejected += n,
             }
             if samples.len() < 3 && k % 5 == 1 {
@@ -300,6 +375,6 @@ fn main() {
     println!(
         "{}",
         json!({"histories": histories, "alterations": total, "distinct_outcomes": distinct, "certified_ok_true": certified, "repaired_ok_false": repaired,
-               "rejected_with_error": rejected, "panics": panics, "samples": samples})
+               "rejected_with_error": rejected, "panics": panics, "process_aborts": total_aborts, "samples": samples})
     );
 }
